@@ -3,16 +3,24 @@ from .prog import (AnalysisBroken, key, strip, walk, const_value, edpe_blocks, b
 
 
 def escaper_table(f, dkey=None, signed=True):
-    """byte -> emitted literal (str) or None for pass-through, by EDPE over the dispatched character."""
+    """byte -> emitted literal (str) or None for pass-through, by EDPE over the dispatched character.
+    Works on a `switch (c)` (the table is the switch arm) as well as on an if-chain over a `char` parameter
+    (the table is the whole function body)."""
     if dkey is None:
         for n in f.walk():
             if n["k"] == "SwitchStmt":
                 dkey = key(n["c"][0])
                 break
-    if dkey is None:
-        raise AnalysisBroken("%s: no switch on a character" % f.name)
-    # start at the switch so that the loop / function prologue does not blur the table
     start = None
+    if dkey is None:
+        # no switch: dispatch on the function's `char` parameter, from the entry
+        for p in f.params:
+            if p[1].replace("const ", "").strip() == "char":
+                dkey = p[0]
+                break
+    if dkey is None:
+        raise AnalysisBroken("%s: no switch on a character and no char parameter" % f.name)
+    # start at the switch so that the loop / function prologue does not blur the table
     for b in f.cfg.blocks.values():
         if b.tk == "SwitchStmt" and b.term is not None and b.term >= 0:
             t = f.nodes.get(b.term)
@@ -25,7 +33,8 @@ def escaper_table(f, dkey=None, signed=True):
         blocks = edpe_blocks(f, dkey, sv, start=start, blocked=())
         # only the blocks between the switch and the loop back edge: stop at the first block that leaves the switch
         lits, passthru, other = [], False, []
-        for n in block_nodes(f, _switch_arm(f, start, blocks, dkey, sv)):
+        arm = _switch_arm(f, start, blocks, dkey, sv) if start is not None else blocks
+        for n in block_nodes(f, arm):
             if n["k"] != "CallExpr":
                 continue
             c = n.get("callee")
@@ -193,3 +202,106 @@ def r_escaper_complete(P, chk, formats=("html", "odf")):
         chk.obligation(rid, "%s prints every byte through %s" % (fn, target), ok)
         if not ok:
             chk.violation(rid, "escaper:%s:bypass" % fn, f.where(), "%s no longer routes characters through %s" % (fn, target))
+
+
+# ---------------------------------------------------------------------------
+# R-WSFLAG (C11): whitespace-collapsing loops keep their "last output was whitespace" flag in step with what they append
+
+WS = (9, 10, 13, 32)
+
+
+def r_wsflag(P, chk):
+    from .prog import edpe_blocks
+    rid = "R-WSFLAG"
+    chk.rule(rid, "in a character loop that collapses runs of whitespace with a boolean flag (`if (!flag) append(' ')`), every path "
+                  "through the switch that appends a non-whitespace character leaves the flag false and every path that appends "
+                  "whitespace leaves it true (per byte value by EDPE, per path through the arm) - otherwise the blank after such a "
+                  "character is swallowed")
+    n_funcs = n_paths = 0
+    for f in P.all_funcs:
+        if not P.first_party(f) or f.unit.base in ("miniz.c", "argtable3.c"):
+            continue
+        # the flag: a local read as `!flag` in an if that guards an append of a whitespace constant
+        flag = None
+        for x in f.walk():
+            if x["k"] != "IfStmt":
+                continue
+            c = strip(x["c"][0])
+            if c is None or c["k"] != "UnaryOperator" or c["op"] != "!":
+                continue
+            v = strip(c["c"][0])
+            if v is None or v["k"] != "DeclRefExpr" or v.get("dk") != "Var":
+                continue
+            if any(y["k"] == "CallExpr" and y.get("callee") == "d_string_append_c" and const_value(y["c"][2]) in WS for y in walk(x["c"][1])):
+                flag = v["n"]
+        if flag is None:
+            continue
+        sw = None
+        for b in f.cfg.blocks.values():
+            if b.tk == "SwitchStmt" and b.term is not None and b.term >= 0:
+                t = f.nodes.get(b.term)
+                if t is not None and any(a["k"] in ("WhileStmt", "ForStmt") for a in f.ancestors(t)):
+                    sw, start, dkey = t, b.id, key(t["c"][0])
+                    break
+        if sw is None:
+            continue
+        n_funcs += 1
+        pos = f.cfg.positions()
+        inside = {pos[x["i"]][0] for x in walk(sw["c"][1]) if x.get("i") in pos}
+        reported = set()
+        for v in range(1, 256):
+            sv = v if v < 128 else v - 256
+            blocks = edpe_blocks(f, dkey, sv, start=start)
+            arm = [b for b in blocks if b in inside]
+            if not arm:
+                continue
+            armset = set(arm)
+            # entry blocks of the arm: successors of the switch block that are in the arm
+            entries = [s for s in f.cfg.blocks[start].rsucc if s in armset]
+            # enumerate acyclic paths
+            stack = [(e, (e,)) for e in entries]
+            while stack:
+                b, path = stack.pop()
+                succ = [s for s in f.cfg.blocks[b].rsucc if s in armset and s not in path]
+                if succ and len(path) < 40:
+                    for s in succ:
+                        stack.append((s, path + (s,)))
+                    # a block may also leave the arm directly (break): that is a complete path too
+                    if all(s in armset for s in f.cfg.blocks[b].rsucc):
+                        continue
+                n_paths += 1
+                last_app = None
+                fl = None
+                for pb in path:
+                    for e in f.cfg.blocks[pb].el:
+                        n = f.nodes.get(e) if e >= 0 else None
+                        if n is None:
+                            continue
+                        if n["k"] == "CallExpr" and n.get("callee") == "d_string_append_c":
+                            cv = const_value(n["c"][2])
+                            if cv is not None:
+                                last_app = "ws" if (cv & 0xff) in WS else "char"
+                            else:
+                                last_app = "ws" if v in WS else "char"
+                            app_node = n
+                        elif n["k"] == "BinaryOperator" and n["op"] == "=" and key(n["c"][0]) == flag and const_value(n["c"][1]) is not None:
+                            fl = bool(const_value(n["c"][1]))
+                if last_app is None:
+                    continue
+                want = last_app == "ws"
+                if last_app == "ws" and fl is None:
+                    continue       # appended under `!flag`; nothing to say if the path leaves it as it was... it must set it
+                ok = fl is not None and fl == want
+                if not ok:
+                    kk = (f.name, "ws" if want else "char", v if v < 128 else 0x80)
+                    if kk in reported:
+                        continue
+                    reported.add(kk)
+                    chk.violation(rid, "wsflag:%s:%s:0x%02x" % (f.name, flag, v), f.where(app_node),
+                                  "%s: for input byte 0x%02x a path appends %s but leaves `%s` %s: the next blank is %s" % (
+                                      f.name, v, "a non-blank character" if not want else "whitespace", flag,
+                                      "unset" if fl is None else str(fl).lower(), "swallowed" if not want else "doubled"))
+        chk.obligation(rid, "%s: `%s` follows every append on every path of the switch (255 byte values)" % (f.name, flag),
+                       ok=not [k2 for k2 in reported if k2[0] == f.name])
+    chk.floor(rid, n_funcs, 1, "whitespace-collapsing character loops")
+    chk.analysed[rid] = {"loops": n_funcs, "paths": n_paths}
